@@ -44,8 +44,18 @@ impl Flag {
 	}
 
 	pub fn raise(&self) {
+		#[cfg(watchexec_verif)]
+		crate::verif::emit("raise", self.verif_id(), 0);
 		self.0.set.store(true, Relaxed);
 		self.0.waker.wake();
+	}
+}
+
+#[cfg(watchexec_verif)]
+impl Flag {
+	/// Identity of the shared flag, for trace points.
+	pub(crate) fn verif_id(&self) -> usize {
+		Arc::as_ptr(&self.0) as usize
 	}
 }
 
